@@ -231,6 +231,7 @@ class Kernel:
         self.comp_keep: list[Any] = []
         self.freed_ids: set[int] = set()                # addresses of contexts that were dropped (`forget`)
         self.listen_scopes: dict[int, Any] = {}
+        self.picky_scopes: dict[int, Any] = {}
         self.deferred: dict[int, tuple[Any, dict[str, Any]]] = {}   # lookups whose coroutine exists but has not been awaited
         self.calls: dict[tuple[int, int], int] = {}
         self.tdlog: list[str] = []
@@ -675,6 +676,21 @@ class Kernel:
                         f"{'f' if ev.is_factory else 'r'}" + ("" if ok else " BADSTAMP"))
         del ctx
 
+    async def picky_listener(self, cid: int, ctx: Any, started: Any) -> None:
+        """Somebody else's listener on the same signal, with a filter that only copes with described resources: what
+        goes wrong in it is its own business (it starts over), not the publisher's nor the other listeners'."""
+        with anyio.CancelScope() as self.picky_scopes[cid]:
+            while True:
+                try:
+                    async with ctx.resource_added.stream_events(lambda ev: ev.resource_description.startswith("zz"),
+                                                                max_queue_size=1000) as stream:
+                        started.set()
+                        async for _ in stream:
+                            pass
+                except AttributeError:
+                    await checkpoint()
+        del ctx
+
     async def settle(self) -> None:
         """Let everything run until nothing can. (On asyncio a task that has just finished wakes whoever waits for it
         through a loop callback, which wait_all_tasks_blocked() does not see: look again after yielding.)"""
@@ -691,6 +707,9 @@ class Kernel:
         if ctx is None:
             return
         sc = self.listen_scopes.pop(c, None)
+        if sc is not None:
+            sc.cancel()
+        sc = self.picky_scopes.pop(c, None)
         if sc is not None:
             sc.cancel()
         self.ctx_ids.pop(id(ctx), None)
@@ -784,6 +803,10 @@ class Kernel:
             await anyio.wait_all_tasks_blocked()
             ctx = self.ctxs.get(op["c"])
             if ctx is not None:
+                if op["c"] % 2 == 0:
+                    started = anyio.Event()
+                    self.tg.start_soon(self.picky_listener, op["c"], ctx, started)
+                    await started.wait()
                 started = anyio.Event()
                 self.tg.start_soon(self.listener, op["c"], ctx, started)
                 await started.wait()
